@@ -228,3 +228,19 @@ MUTANTS += [
     ("c15_pandas_naive_day_resolution", UT, "        # pandas time objects without a datetime component\n        return dates.to_numpy().astype(\"datetime64[ns]\")", "        # pandas time objects without a datetime component\n        return dates.to_numpy().astype(\"datetime64[m]\").astype(\"datetime64[ns]\")", ["C15"]),
     ("c15_density_z_mask_dropped", Q, "        zinp = np.ma.masked_invalid(np.ma.array(zinp).astype(np.float64).filled(np.nan))\n\n    # Make sure both inputs are the same size.", "        zinp = np.ma.masked_invalid(np.array(zinp).astype(np.float64))\n\n    # Make sure both inputs are the same size.", ["C15"]),
 ]
+CF = "ioos_qc/config.py"
+MUTANTS += [
+    ("c07_depth_ge_3", CF, "elif dict_depth(self.config) >= 4:", "elif dict_depth(self.config) >= 3:", ["C07"]),
+    ("c07_unknown_test_break", CF, "                            f'No ioos_qc method \"{package}.{testname}\" was found, skipping',\n                        )\n                        continue", "                            f'No ioos_qc method \"{package}.{testname}\" was found, skipping',\n                        )\n                        break", ["C07", "C18"]),
+    ("c07_unknown_module_break", CF, "                        f'No ioos_qc package \"{package}\" was found, skipping.',\n                    )\n                    continue", "                        f'No ioos_qc package \"{package}\" was found, skipping.',\n                    )\n                    break", ["C07", "C18"]),
+    ("c07_features_first_only", CF, "[shape(feature[\"geometry\"]) for feature in self.config[\"region\"][\"features\"]],", "[shape(feature[\"geometry\"]) for feature in self.config[\"region\"][\"features\"][:1]],", ["C07"]),
+    ("c07_default_key_ignored", CF, "                        odict(streams={default_stream_key: self.config}),", "                        odict(streams={\"_stream\": self.config}),", ["C07"]),
+    ("c07_contexts_only_first", CF, "                for c in self.config[\"contexts\"]:\n                    self._calls.extend(list(ContextConfig(c).calls))", "                for c in self.config[\"contexts\"][:2]:\n                    self._calls.extend(list(ContextConfig(c).calls))", ["C07"]),
+    ("c07_xarray_var_attrs_overwrite", UT, "            merged = dict_update(\n                y.get(vobj.ioos_qc_target, {}),\n                newdict,\n            )", "            merged = newdict", ["C07"]),
+    ("c07_stringio_json_only", UT, "        load_funcs = [\n            lambda x: OrderedDict(yaml.load(x)),\n            lambda x: OrderedDict(json.load(x)),\n        ]", "        load_funcs = [\n            lambda x: OrderedDict(json.loads(x)),\n        ]", ["C07"]),
+    ("c07_window_ending_dropped_when_no_start", CF, "            self.window = tw(**self.config[\"window\"])", "            self.window = tw(**self.config[\"window\"]) if self.config[\"window\"].get(\"starting\") else tw()", ["C07"]),
+    ("c07_kwargs_shared_between_streams", CF, "                    kwargs = kwargs or {}\n", "                    kwargs = kwargs or {}\n                    kwargs.pop(\"method\", None)\n", ["C07"]),
+]
+MUTANTS += [
+    ("c07_context_identity_ignores_region", CF, "            return self.window == other.window and self.region == other.region\n        return False\n\n    def __key__(self):\n        return (\n            self.window,\n            getattr(self.region, \"wkb\", None),\n        )", "            return self.window == other.window\n        return False\n\n    def __key__(self):\n        return (\n            self.window,\n        )", ["C07"]),
+]
